@@ -28,6 +28,16 @@ impl PayloadSpec {
         match self.fill.as_str() {
             "zero" => vec![0; self.len],
             "ff" => vec![0xFF; self.len],
+            f if f.starts_with("crcword:") && self.len >= 4 => {
+                // random payload whose first four bytes are forged so that the stored payload CRC word
+                // (the inverted CRC-32C of payload + zero padding) takes a chosen boundary value
+                let want = u32::from_str_radix(&f[8..], 16).unwrap_or(0);
+                let mut data = Rng::new(self.seed).bytes(self.len);
+                data.resize(self.len.next_multiple_of(4), 0);
+                let _ = daqmodel::crc::forge4(&mut data, 0, !want);
+                data.truncate(self.len);
+                data
+            }
             _ => Rng::new(self.seed).bytes(self.len),
         }
     }
@@ -92,6 +102,10 @@ struct Scn {
     /// every value but the specified one must be rejected - whatever recipe produced it
     #[serde(default)]
     crc_sweep: Option<(bool, u8)>,
+    /// the packet sequence number is chosen (forged) such that the STORED header CRC word takes
+    /// this boundary value (0, 1, 0x80000000, 0xFFFFFFFF, ...)
+    #[serde(default)]
+    header_crc_word: Option<u32>,
 }
 
 const N_CRC_SWEEP_QUICK: u64 = 512;
@@ -102,6 +116,33 @@ fn default_mode() -> String {
 
 impl Scn {
     fn spec(&self) -> ChunkSpec {
+        let mut spec = self.spec_plain();
+        if let Some(want) = self.header_crc_word {
+            // the packet sequence number occupies four of the sixteen header bytes: find where (by
+            // encoding two values), forge those bytes, read the number back
+            let mut a = spec.clone();
+            a.packet_seq = 0;
+            let mut b = spec.clone();
+            b.packet_seq = 0xFFFF_FFFF;
+            let (ea, eb) = (a.encode(), b.encode());
+            let pos: Vec<usize> = (0..16).filter(|&k| ea[k] != eb[k]).collect();
+            if pos.len() == 4 && pos[3] == pos[0] + 3 {
+                let mut hdr = ea[..16].to_vec();
+                if daqmodel::crc::forge4(&mut hdr, pos[0], !want) {
+                    let raw = [hdr[pos[0]], hdr[pos[0] + 1], hdr[pos[0] + 2], hdr[pos[0] + 3]];
+                    for cand in [u32::from_le_bytes(raw), u32::from_be_bytes(raw)] {
+                        let mut c = spec.clone();
+                        c.packet_seq = cand;
+                        if c.encode()[..16] == hdr[..] {
+                            spec.packet_seq = cand;
+                        }
+                    }
+                }
+            }
+        }
+        spec
+    }
+    fn spec_plain(&self) -> ChunkSpec {
         ChunkSpec {
             device_id: self.device_id,
             packet_seq: self.packet_seq,
@@ -477,7 +518,7 @@ impl Check for C03Check {
                 // mode repeats only every 16th slice.)
                 let (payload_word, top) = (k % 2 == 0, (k / 2) as u8);
                 if tier == Tier::Quick && mode == "relchk" && (k / 2) % 16 != 5 {
-                    let scn = Scn { mode: mode.into(), device_id: b[0].device_id, packet_seq: 0, channel_seq: 0, chip: 0, flags: 0, chunk_id: 0, payload: PayloadSpec { len: 1, fill: "zero".into(), seed: 0 }, sweep: None, faults: vec![], crc_sweep: None };
+                    let scn = Scn { mode: mode.into(), device_id: b[0].device_id, packet_seq: 0, channel_seq: 0, chip: 0, flags: 0, chunk_id: 0, payload: PayloadSpec { len: 1, fill: "zero".into(), seed: 0 }, sweep: None, faults: vec![], crc_sweep: None, header_crc_word: None };
                     return serde_json::to_value(scn).unwrap();
                 }
                 let scn = Scn {
@@ -492,6 +533,7 @@ impl Check for C03Check {
                     sweep: None,
                     faults: vec![],
                     crc_sweep: Some((payload_word, top)),
+                    header_crc_word: None,
                 };
                 return serde_json::to_value(scn).unwrap();
             }
@@ -533,8 +575,23 @@ impl Check for C03Check {
         } else {
             *r.pick(&["random", "random", "random", "zero", "ff"])
         };
+        // boundary values of the CRC words themselves: every 8th seeded-length scenario has a payload
+        // and/or a header forged so that the stored word is 0, 1, 2^31 or 2^32-1
+        let boundary = [0u32, 0, 1, 0x8000_0000, 0xFFFF_FFFF, 0xFFFF_FFFE];
+        let (fill, header_crc_word): (String, Option<u32>) = if index >= n_small + n_special && index < n_small + n_special + n_random && index % 8 == 3 && len >= 4 {
+            let v = boundary[(index / 8 % 6) as usize];
+            match index / 8 % 3 {
+                0 => (format!("crcword:{v:08x}"), None),
+                1 => (fill.to_string(), Some(v)),
+                _ => (format!("crcword:{v:08x}"), Some(boundary[(index / 8 % 5) as usize])),
+            }
+        } else {
+            (fill.to_string(), None)
+        };
+        let fill = fill.as_str();
         let scn = Scn {
             crc_sweep: None,
+            header_crc_word,
             mode: mode.into(),
             device_id: r.pick(b).device_id,
             packet_seq: field32(&mut r),
@@ -588,6 +645,15 @@ impl Check for C03Check {
         let base = scn.spec().encode();
         let declared = scn.payload.len;
         let nbits = base.len() * 8;
+        if base.len() >= 28 {
+            let special = [0u32, 1, 0x8000_0000, 0xFFFF_FFFF, 0xFFFF_FFFE];
+            if special.contains(&u32::from_le_bytes(base[16..20].try_into().unwrap())) {
+                stats.probe("stored_header_crc_word_is_0_1_2^31_or_2^32-1");
+            }
+            if special.contains(&u32::from_le_bytes(base[base.len() - 4..].try_into().unwrap())) {
+                stats.probe("stored_payload_crc_word_is_0_1_2^31_or_2^32-1");
+            }
+        }
         let mut log = H64::new();
         log.bytes(&base);
         if let Some((payload_word, top)) = scn.crc_sweep {
